@@ -218,8 +218,11 @@ pub fn ref_line(line: &str) -> RefLine {
     let hexok = |s: &str| (4..=6).contains(&s.len()) && s.bytes().all(|b| b.is_ascii_digit() || (b'A'..=b'F').contains(&b));
     let mut unspecified = false;
     let mut cp_val: Option<(u32, Option<u32>)> = None;
-    if cps.is_empty() || cps.chars().any(|c| !(c.is_ascii_hexdigit() || c == '-' || c == '+')) {
+    if cps.trim().is_empty() || cps.chars().any(|c| !(c.is_ascii_hexdigit() || c == '-' || c == '+' || c.is_whitespace())) {
         return RefLine::Malformed;
+    }
+    if cps.chars().any(|c| c.is_whitespace()) {
+        unspecified = true; // whether blanks around a code point are tolerated is not part of the statement
     }
     if hexok(cps) {
         let v = u32::from_str_radix(cps, 16).unwrap();
@@ -246,27 +249,28 @@ pub fn ref_line(line: &str) -> RefLine {
     }
     let name = |s: &str| PROP_NAMES.iter().position(|n| *n == s).map(|i| i as u8);
     let mut pv: Option<(u8, Option<u8>)> = None;
-    if let Some(i) = name(props) {
-        pv = Some((i, None));
-    } else {
-        let toks: Vec<&str> = props.split(' ').filter(|t| !t.is_empty()).collect();
-        let only_spaces_and_words = props.chars().all(|c| c == ' ' || c == '_' || c.is_ascii_alphabetic());
-        if toks.len() == 3 && toks[1] == "or" && only_spaces_and_words && !props.starts_with(' ') && !props.ends_with(' ') {
-            match (name(toks[0]), name(toks[2])) {
-                (Some(a), Some(b)) => pv = Some((a, Some(b))),
-                _ => return RefLine::Malformed,
+    // Tokens are separated by ANY whitespace: which blanks a parser tolerates is not part of the statement, so a field is
+    // only called malformed when it is malformed under every whitespace treatment, and only called well-formed when its
+    // separators are plain ASCII spaces with nothing before or after.
+    let toks: Vec<&str> = props.split(char::is_whitespace).filter(|t| !t.is_empty()).collect();
+    let plain_spaces_only = !props.chars().any(|c| c.is_whitespace() && c != ' ') && !props.starts_with(' ') && !props.ends_with(' ');
+    let known = |t: &str| name(t).is_some() || t == "or";
+    if toks.is_empty() {
+        return RefLine::Malformed;
+    } else if toks.iter().all(|t| known(t)) {
+        match toks.as_slice() {
+            [a] if name(a).is_some() => {
+                if plain_spaces_only { pv = Some((name(a).unwrap(), None)) } else { unspecified = true }
             }
-        } else if props.chars().any(|c| !(c == ' ' || c == '_' || c.is_ascii_alphabetic())) {
-            return RefLine::Malformed; // characters that occur in no property name or pair
-        } else if toks.len() > 3 && toks.iter().all(|t| *t == "or" || name(t).is_some()) {
-            return RefLine::Malformed; // more than two members
-        } else if !props.is_empty() && props.chars().all(|c| c == '_' || c.is_ascii_uppercase()) {
-            return RefLine::Malformed; // a single unknown word
-        } else if props.is_empty() {
-            return RefLine::Malformed;
-        } else {
-            unspecified = true;
+            [a, o, b] if *o == "or" && name(a).is_some() && name(b).is_some() => {
+                if plain_spaces_only { pv = Some((name(a).unwrap(), name(b))) } else { unspecified = true }
+            }
+            _ => return RefLine::Malformed, // wrong number of members / misplaced 'or'
         }
+    } else if toks.iter().any(|t| !known(t) && !PROP_NAMES.iter().any(|n| n.eq_ignore_ascii_case(t)) && !t.eq_ignore_ascii_case("or")) {
+        return RefLine::Malformed; // a token that is not a property name under any reading
+    } else {
+        unspecified = true; // e.g. lower-case spellings
     }
     match (unspecified, cp_val, pv) {
         (false, Some((start, end)), Some((p1, p2))) => RefLine::WellFormed { start, end, p1, p2, desc: desc.to_string() },
